@@ -34,6 +34,8 @@ def dispatch (op : String) : Option (List String → List String → Option (Str
   | "mg.staged" => some mgStaged
   | "mg.ramp" => some mgRamp
   | "mg.gauss" => some mgGauss
+  | "mg.scn" => some mgScn
+  | "mg.plan" => some mgPlan
   | "dist" => some dist
   | "run" => some runOp
   | "cli" => some cliOp
